@@ -447,12 +447,32 @@ def _flag_strip_points(body):
     return anchors
 
 
+class _Retag6:
+    """C08.R7 (an advanced by-value copy of carried state is stored back) reported under C13 for the deframer"""
+    def __init__(self, ctx):
+        self.ctx = ctx
+
+    def ok(self, rule, key, *a, **k):
+        if "hdlc_deframer" in key or key == "no-advanced-copies":
+            self.ctx.ok("C13.R6", key, *a, **k)
+
+    def bad(self, rule, key, *a, **k):
+        if "hdlc_deframer" in key:
+            self.ctx.bad("C13.R6", key, *a, **k)
+
+    def silent(self, rule, key, *a, **k):
+        pass
+
+
 def run(ctx):
     facts = ctx.facts("default")
     ctx.anchor("C13", DEFRAMER in facts.adts, "hdlc_deframer::HdlcDeframer")
     rule_r1(facts, ctx)
     rule_r2(facts, ctx)
     rule_r3(facts, ctx)
+    from . import c08
+    c08.rule_r7(facts, _Retag6(ctx))
+    ctx.floor("C13.R6", 1, "advanced copies of the deframer's carried state (or the statement that there are none)")
     rule_r5(facts, ctx)
     ctx.floor("C13.R5", 1, "Synced restarts after the closing flag (3 today, 1 when built by a helper)")
     from . import c15
